@@ -42,24 +42,26 @@ var fams = map[string]*Fam{
 		Mod: map[string]interface{}{"P": CP{}, "O": CO{}, "M": CM{}, "T": CT{}, "G": CG{}}},
 	"M": {Name: "M", Parts: []string{"N", "S"}, Types: []string{"int", "str"},
 		Mod: map[string]interface{}{"P": MP{}, "O": MO{}, "M": MM{}, "T": MT{}, "G": MG{}}},
+	"R": {Name: "R", Parts: []string{"S", "N"}, Types: []string{"str", "int"},
+		Mod: map[string]interface{}{"P": RP{}, "O": RO{}, "M": RM{}, "T": RT{}, "G": RG{}}},
 }
-var famNames = []string{"I", "S", "C", "M"}
+var famNames = []string{"I", "S", "C", "M", "R"}
 
 // Rel describes one relation: which Go fields of the parent and of the child are matched.
 type Rel struct {
-	Name    string
-	Kind    string
-	On      string // model the relation field lives on: "P" or "M"
-	Child   string // model of the child rows
-	Single  bool
-	M2M     bool
-	PF, CF  []string // Go field names (parent side, child side)
-	PPtr    bool
-	CPtr    bool
-	Poly    string
-	JOwner  []string // join-table columns (db names)
-	JTag    []string
-	JTable  string
+	Name   string
+	Kind   string
+	On     string // model the relation field lives on: "P" or "M"
+	Child  string // model of the child rows
+	Single bool
+	M2M    bool
+	PF, CF []string // Go field names (parent side, child side)
+	PPtr   bool
+	CPtr   bool
+	Poly   string
+	JOwner []string // join-table columns (db names)
+	JTag   []string
+	JTable string
 }
 
 func pre(p string, parts []string) []string {
@@ -195,6 +197,7 @@ type Input struct {
 	Unscoped bool             `json:"unscoped,omitempty"`
 	Shape    string           `json:"shape"` // struct | slice | ptrs
 	Dup      bool             `json:"dup,omitempty"`
+	Inner    bool             `json:"inner,omitempty"`  // joins mode: InnerJoins instead of Joins
 	Subset   []int64          `json:"subset,omitempty"` // parent uids selected (nil = all)
 	Tables   map[string][]Row `json:"tables"`           // P O M T G N J
 }
@@ -683,7 +686,22 @@ func (e *Env) run(in Input) []Obs {
 			tx = tx.Preload(rel.Name+"."+in.Nested, condArgs(in.Cond2)...)
 		}
 	case "joins":
-		tx = tx.Joins(rel.Name)
+		// ON conditions are passed as a *gorm.DB (Joins("Rel", db.Where(...))); the joined table's
+		// alias is the relation name
+		var jargs []interface{}
+		switch in.Cond.Kind {
+		case "mod":
+			jargs = append(jargs, db.Where(rel.Name+".v % ? = ?", in.Cond.A, in.Cond.B))
+		case "gt":
+			jargs = append(jargs, db.Where(rel.Name+".v > ?", in.Cond.A))
+		case "none":
+			jargs = append(jargs, db.Where("1 = 0"))
+		}
+		if in.Inner {
+			tx = tx.InnerJoins(rel.Name, jargs...)
+		} else {
+			tx = tx.Joins(rel.Name, jargs...)
+		}
 		if in.Nested != "" {
 			tx = tx.Preload(rel.Name+"."+in.Nested, condArgs(in.Cond2)...)
 		}
@@ -746,7 +764,6 @@ func (e *Env) run(in Input) []Obs {
 			hop: Hop{Single: r.Single, Cond: in.Cond, Unscoped: in.Unscoped, Poly: r.Poly}, hop2: Hop{Cond: Cond{Kind: "all"}}}
 		if in.Mode == "joins" {
 			o.Mode = "MJoins"
-			o.hop.Cond = Cond{Kind: "all"}
 		}
 		var lvl1 []reflect.Value
 		for _, p := range ps {
@@ -972,6 +989,9 @@ func genPart(r *lib.Rng, typ string, edge bool) Val {
 		}
 		return VI(int64(r.Range(1, 7)))
 	case "int":
+		if !edge && r.Chance(1, 12) {
+			return VI(0)
+		}
 		if edge && r.Chance(1, 4) {
 			return VI(int64(lib.Pick(r, []int{0, -1, -2, 1 << 40})))
 		}
@@ -979,6 +999,9 @@ func genPart(r *lib.Rng, typ string, edge bool) Val {
 	}
 	if edge && r.Chance(1, 3) {
 		return VS(lib.Pick(r, strEdge))
+	}
+	if r.Chance(1, 14) {
+		return VS("")
 	}
 	return VS(lib.Pick(r, strPool))
 }
@@ -1089,8 +1112,14 @@ func genInput(r *lib.Rng, edge bool) Input {
 		}
 		return c
 	}
-	if in.Mode != "joins" {
-		in.Cond = genCond()
+	in.Cond = genCond()
+	if in.Mode == "joins" {
+		in.Inner = r.Chance(1, 4)
+		if in.Cond.Kind != "all" {
+			in.Cond.As = "on-db"
+		} else if r.Chance(1, 2) { // ON conditions are frequent in this mode
+			in.Cond = Cond{Kind: "gt", A: int64(r.Range(0, 4)), As: "on-db"}
+		}
 	}
 	if in.Mode == "preload" {
 		if r.Chance(1, 7) {
@@ -1240,6 +1269,121 @@ func genInput(r *lib.Rng, edge bool) Input {
 	return in
 }
 
+// targetedInputs: a small deterministic stream run in EVERY tier.
+//
+//	(a) a parent held as a single STRUCT (and as slices, for contrast) whose composite key has a zero
+//	    LAST part ("" or 0) next to a sibling with the same first part: has one, has many, belongs to,
+//	    self relations, Preload and Association().Find;
+//	(b) association Joins / InnerJoins with ON conditions passed as *gorm.DB on children of which
+//	    some are soft-deleted and satisfy the condition.
+func targetedInputs() []Input {
+	var out []Input
+	null2 := []Val{VNull, VNull}
+	type kf struct {
+		fam       string
+		zero, one []Val
+	}
+	for _, k := range []kf{
+		{"C", []Val{VS("x"), VS("")}, []Val{VS("x"), VS("y")}},
+		{"M", []Val{VI(5), VS("")}, []Val{VI(5), VS("y")}},
+		{"R", []Val{VS("x"), VI(0)}, []Val{VS("x"), VI(1)}},
+	} {
+		f := fams[k.fam]
+		mkP := func(uid int64, key, tfk, bfk []Val) Row {
+			row := Row{F: map[string]Val{"UID": VI(uid), "V": VI(uid % 10)}}
+			setKey(&row, f.Parts, key)
+			setKey(&row, pre("T", f.Parts), tfk)
+			setKey(&row, pre("B", f.Parts), bfk)
+			return row
+		}
+		child := func(uid int64, fk []Val, del bool) Row {
+			row := Row{F: map[string]Val{"UID": VI(uid), "V": VI(uid % 10), "ID": VI(uid)}, Del: del}
+			setKey(&row, pre("P", f.Parts), fk)
+			return row
+		}
+		keyed := func(uid int64, key []Val) Row {
+			row := Row{F: map[string]Val{"UID": VI(uid), "V": VI(uid % 10)}}
+			setKey(&row, f.Parts, key)
+			return row
+		}
+		tables := map[string][]Row{
+			// 101 has the zero-last-part key, 102 the sibling key and belongs to / reports to 101's key
+			"P": {mkP(101, k.zero, k.one, null2), mkP(102, k.one, k.zero, k.zero)},
+			"M": {child(201, k.zero, false), child(202, k.zero, false), child(203, k.one, false), child(204, k.zero, true)},
+			"O": {child(301, k.zero, false), child(302, k.one, false)},
+			"T": {keyed(401, k.zero), keyed(402, k.one)},
+			"G": {keyed(501, k.zero), keyed(502, k.one)},
+		}
+		jrow := func(l, g []Val) Row {
+			row := Row{F: map[string]Val{}}
+			tags := f.rels()["Tags"]
+			setKey(&row, tags.JOwner, l)
+			setKey(&row, tags.JTag, g)
+			return row
+		}
+		tables["J"] = []Row{jrow(k.zero, k.one), jrow(k.one, k.zero), jrow(k.zero, k.zero)}
+		for _, rel := range []string{"Many", "One", "Target", "Team", "Boss", "Tags"} {
+			for _, mode := range []string{"preload", "assoc"} {
+				for _, sh := range []struct {
+					shape string
+					sub   []int64
+				}{{"struct", []int64{101}}, {"struct", []int64{102}}, {"slice", nil}, {"ptrs", []int64{101}}} {
+					out = append(out, Input{Fam: k.fam, Rel: rel, Mode: mode, Shape: sh.shape, Subset: sh.sub,
+						Cond: Cond{Kind: "all"}, Cond2: Cond{Kind: "all"}, Tables: tables})
+				}
+			}
+		}
+	}
+	// (b) joins with ON conditions over soft-deleted children
+	for _, fam := range []string{"I", "S", "C"} {
+		f := fams[fam]
+		key := func(i int) []Val {
+			t := make([]Val, len(f.Types))
+			for j, ty := range f.Types {
+				if ty == "str" {
+					t[j] = VS(fmt.Sprint("k", i, j))
+				} else {
+					t[j] = VI(int64(i + 1))
+				}
+			}
+			return t
+		}
+		null := make([]Val, len(f.Parts))
+		for i := range null {
+			null[i] = VNull
+		}
+		var ps, os, ts []Row
+		for i := 0; i < 4; i++ {
+			p := Row{F: map[string]Val{"UID": VI(int64(101 + i)), "V": VI(int64(i))}}
+			setKey(&p, f.Parts, key(i))
+			setKey(&p, pre("T", f.Parts), key(10+i))
+			setKey(&p, pre("B", f.Parts), null)
+			if i > 0 {
+				setKey(&p, pre("B", f.Parts), key(i-1))
+			}
+			ps = append(ps, p)
+			// has-one children: v = 5 everywhere, rows of parents 1 and 3 soft-deleted
+			o := Row{F: map[string]Val{"UID": VI(int64(301 + i)), "ID": VI(int64(301 + i)), "V": VI(5)}, Del: i%2 == 1}
+			setKey(&o, pre("P", f.Parts), key(i))
+			os = append(os, o)
+			t := Row{F: map[string]Val{"UID": VI(int64(401 + i)), "V": VI(5)}, Del: i%2 == 0}
+			setKey(&t, f.Parts, key(10+i))
+			ts = append(ts, t)
+		}
+		ps[2].Del = true // a soft-deleted Boss
+		tables := map[string][]Row{"P": ps, "O": os, "T": ts}
+		for _, rel := range []string{"One", "Target", "Boss"} {
+			for _, c := range []Cond{{Kind: "all"}, {Kind: "gt", A: 0, As: "on-db"}, {Kind: "mod", A: 2, B: 1, As: "on-db"}} {
+				for _, inner := range []bool{false, true} {
+					out = append(out, Input{Fam: fam, Rel: rel, Mode: "joins", Shape: "slice", Inner: inner,
+						Cond: c, Cond2: Cond{Kind: "all"}, Tables: tables})
+				}
+			}
+		}
+	}
+	return out
+}
+
 // sweepInputs: bounded-exhaustive sweep (thorough tier) over all pairs of composite string keys
 // built from a separator / nil heavy alphabet, as two has-many parents with one child each and as
 // two belongs-to owners of two targets.  Every pair must satisfy the property.
@@ -1304,8 +1448,8 @@ func shapeOf(in Input) string {
 	}
 	fl := []byte(flags)
 	sort.Slice(fl, func(i, j int) bool { return fl[i] < fl[j] })
-	return fmt.Sprintf("%s.%s|%s|n=%s|all=%v|c=%s%s,%s%s|u=%v|%s|dup=%v|sub=%d|P%d,O%d,M%d,T%d,G%d,N%d,J%d|%s",
-		in.Fam, in.Rel, in.Mode, in.Nested, in.AllAssoc, in.Cond.Kind, in.Cond.As, in.Cond2.Kind, in.Cond2.As, in.Unscoped,
+	return fmt.Sprintf("%s.%s|%s|inner=%v|n=%s|all=%v|c=%s%s,%s%s|u=%v|%s|dup=%v|sub=%d|P%d,O%d,M%d,T%d,G%d,N%d,J%d|%s",
+		in.Fam, in.Rel, in.Mode, in.Inner, in.Nested, in.AllAssoc, in.Cond.Kind, in.Cond.As, in.Cond2.Kind, in.Cond2.As, in.Unscoped,
 		in.Shape, in.Dup, len(in.Subset), n("P"), n("O"), n("M"), n("T"), n("G"), n("N"), n("J"), string(fl))
 }
 
@@ -1378,6 +1522,9 @@ func main() {
 	for _, fpath := range lib.CorpusFiles(a.Corpus) {
 		add("corpus", readInput(fpath))
 	}
+	for _, in := range targetedInputs() {
+		add("targeted", in)
+	}
 	r := lib.NewRng(a.Seed)
 	budget := 1500
 	if a.Tier == "thorough" {
@@ -1398,6 +1545,6 @@ func main() {
 		}
 		add(kind, in)
 	}
-	out.Extra["rule"] = "cases = data graph over one of 4 key signatures (uint, string, (string,string), (int64,string)) x relation {has_one, has_many, belongs_to, many2many, polymorphic, self belongs_to, self has_many} x {Preload single / nested / clause.Associations / with inline or scope conditions, association Joins (+nested preload below the join), Association().Find} x Unscoped x parent shape {struct, slice, slice of pointers} x duplicated parents; key strings include separators and the text nil, foreign keys include NULL and partly NULL tuples, children include soft-deleted rows; the inputs of the four defects fixed in /repo (separator / nil / zero key collisions, empty composite IN) are replayed from corpus/C11 first and occur in the random streams and the sweep like any other input; distinct = distinct (family, relation, mode, path, conditions, shape, table sizes, flags) shapes; non-trivial = at least one child attached and either two parents with different non-empty attachments or a child row of the table attached to nobody"
+	out.Extra["rule"] = "cases = data graph over one of 5 key signatures (uint, string, (string,string), (int64,string), (string,int64)) x relation {has_one, has_many, belongs_to, many2many, polymorphic, self belongs_to, self has_many} x {Preload single / nested / clause.Associations / with inline or scope conditions, association Joins / InnerJoins without and with ON conditions passed as *gorm.DB (+nested preload below the join), Association().Find} x Unscoped x parent shape {struct, slice, slice of pointers} x duplicated parents; key strings include separators, the text nil and the empty string, numeric key parts include 0 (also as the LAST part of a composite key of a struct-shaped parent: deterministic 'targeted' stream in every tier), foreign keys include NULL and partly NULL tuples, children include soft-deleted rows; the inputs of the four defects fixed in /repo (separator / nil / zero key collisions, empty composite IN) are replayed from corpus/C11 first and occur in the random streams and the sweep like any other input; distinct = distinct (family, relation, mode, path, conditions, shape, table sizes, flags) shapes; non-trivial = at least one child attached and either two parents with different non-empty attachments or a child row of the table attached to nobody"
 	lib.Must(out.Flush())
 }
